@@ -572,4 +572,195 @@ theorem vr_step_ring {α} (n : Nat) (s : VRing α) (i : In α) (hi : VInv n s) :
     all_goals (repeat' split)
     all_goals (first | omega | (intro h; first | omega | (simp at h; done) | (simp at h; omega)) | (constructor <;> first | omega | rfl) | trace_state)
 
+theorem vrStep_snd {α} (n : Nat) (s : VRing α) (i : In α) (hi : VInv n s) :
+    (vrStep n s i).2 =
+      { enqRdy := decide (vcount n s < n), deqRdy := decide (vcount n s > 0),
+        ret := if decide (vcount n s > 0) then some (s.regs s.deqPtr) else none,
+        count := if i.rst then n else n - vcount n s } := by
+  obtain ⟨h1, h2⟩ := vr_rdy n s hi
+  have h3 := vnfe_eq n s hi i.rst
+  simp only [vrStep, h3, ← h1, ← h2]
+
+def vrSim {α} (n : Nat) (hn : 0 < n) : Sim (α := α) (vrStep n) styleVN .normal n where
+  abs := fun s => rabs n (toRing n s)
+  Inv := VInv n
+  out_eq := by
+    intro s i hi
+    have hr := toRing_inv n s hi
+    have hfr : front (rabs n (toRing n s)) i.msg = if vcount n s = 0 then i.msg else s.regs s.deqPtr :=
+      rabs_front n _ hr i.msg
+    have hlen : (rabs n (toRing n s)).length = vcount n s := rabs_length n _
+    rw [vrStep_snd n s i hi, specStep_snd]
+    simp only [hlen, hfr, specEr, specDr, styleVN, enqLaw, deqLaw,
+      Bool.false_and, Bool.not_false, Bool.true_and, if_true, if_false, Bool.false_eq_true]
+    congr 1
+    by_cases h0 : vcount n s = 0 <;> simp [h0]
+  next := by
+    intro s i hi _
+    have hr := toRing_inv n s hi
+    obtain ⟨h1, h2⟩ := vr_step_ring n s i hi
+    rw [h1, specStep_fst]
+    have hf := ex_dx_facts .normal n (vcount n s) true i.enq i.deq hn hr.hcnt
+    have := ringIdeal_sim n (toRing n s) i.msg i.rst (i.enq && decide (vcount n s < n))
+      (i.deq && decide (vcount n s > 0)) hr
+      (by simpa [enqLaw, deqLaw, toRing] using hf.1) (by simpa [enqLaw, deqLaw, toRing] using hf.2.1)
+    refine ⟨?_, h2⟩
+    rw [this.1]
+    simp [specEr, specDr, styleVN, enqLaw, deqLaw, toRing]
+
+theorem vring_init_inv {α} (n : Nat) (hn : 0 < n) (d : α) : VInv n (VRing.init d) :=
+  ⟨hn, hn, hn, by simp [VRing.init]⟩
+
+def clSim {α} (k : Kind) (n : Nat) (hn : 0 < n) : Sim (α := α) (clStep k n) styleV1 k n where
+  abs := List.reverse
+  Inv := fun q => q.length ≤ n
+  out_eq := fun q i hq => (cl_sim k n hn q i hq).1
+  next := fun q i hq _ => (cl_sim k n hn q i hq).2
+
+/-! ## histories -/
+
+theorem run_append {σ α : Type} (step : σ → In α → σ × Out α) (s : σ) (pre : List (In α)) (i : In α) :
+    run step s (pre ++ [i]) = run step s pre ++ [(step (runState step s pre) i).2] := by
+  induction pre generalizing s with
+  | nil => rfl
+  | cons j pre ih => simp only [List.cons_append, run, runState, ih]
+
+theorem length_run {σ α : Type} (step : σ → In α → σ × Out α) (s : σ) (is : List (In α)) :
+    (run step s is).length = is.length := by
+  induction is generalizing s with
+  | nil => rfl
+  | cons j is ih => simp only [run, List.length_cons, ih]
+
+/-- the ledger invariant of the specification along a whole history -/
+theorem spec_run_ledger {α} (st : Style) (k : Kind) (n : Nat) (hn : 0 < n) (is : List (In α)) (l : List α)
+    (L : Ledger α) (h : L.acc = L.del ++ l) (hl : l.length ≤ n) :
+    (ledgerFrom st L is (run (specStep st k n) l is)).acc =
+      (ledgerFrom st L is (run (specStep st k n) l is)).del ++ runState (specStep st k n) l is ∧
+    (runState (specStep st k n) l is).length ≤ n := by
+  induction is generalizing l L with
+  | nil => exact ⟨h, hl⟩
+  | cons i is ih =>
+    obtain ⟨h1, h2⟩ := spec_step_ledger st k n hn l i L h hl
+    simp only [run, runState, ledgerFrom]
+    exact ih _ _ h1 h2
+
+/-- spec: accepted = delivered ++ contents, contents ≤ capacity -/
+theorem spec_ledger {α} (st : Style) (k : Kind) (n : Nat) (hn : 0 < n) (is : List (In α)) :
+    (ledger st is (runSpec st k n is)).acc =
+      (ledger st is (runSpec st k n is)).del ++ runState (specStep st k n) [] is ∧
+    (runState (specStep st k n) [] is).length ≤ n :=
+  spec_run_ledger st k n hn is [] ⟨[], []⟩ rfl (Nat.zero_le _)
+
+/-- spec: the number of messages inside equals accepted − delivered -/
+theorem spec_len {α} (st : Style) (k : Kind) (n : Nat) (hn : 0 < n) (is : List (In α)) :
+    (runState (specStep st k n) [] is).length =
+      (ledger st is (runSpec st k n is)).acc.length - (ledger st is (runSpec st k n is)).del.length := by
+  have := (spec_ledger st k n hn is).1
+  rw [this, List.length_append]; omega
+
+/-! ## every class against the specification -/
+
+theorem ring_trace {α} (st : Style) (k : Kind) (n : Nat) (hn : 0 < n) (hr : st.reset = true) (hp : st.push = false)
+    (hf : st.free = false) (d : α) (is : List (In α))
+    (hl : LegalTrace st is (run (ringStep st.gate k n) (Ring.init d) is)) :
+    run (ringStep st.gate k n) (Ring.init d) is = runSpec st k n is :=
+  (ringSim st k n hn hr hp hf).run_eq is _ (ring_init_inv n hn d) hl
+
+theorem cls_trace {α} (c : Cls) (hc : c ≠ .erBypass2) (n : Nat) (hn : c.capOK n) (d : α) (is : List (In α))
+    (hl : LegalTrace c.style is (runCls c n d is)) :
+    runCls c n d is = runSpec c.style c.kind (c.cap n) is := by
+  cases c
+  case erBypass2 => exact absurd rfl hc
+  case qNormal | qPipe | qBypass =>
+    simp only [runCls, Cls.kind, Cls.style, Cls.cap, Cls.capOK] at *
+    split at hl
+    · next h1 => subst h1; simp only [if_true]; exact (q1Sim _).run_eq is _ trivial hl
+    · next h1 => simp only [h1, if_false]; exact ring_trace styleQ _ n (by omega) rfl rfl rfl d is hl
+  case sNormal | sPipe | sBypass =>
+    simp only [runCls, Cls.kind, Cls.style, Cls.cap, Cls.capOK] at *
+    split at hl
+    · next h1 => subst h1; simp only [if_true]; exact (s1Sim _).run_eq is _ trivial hl
+    · next h1 => simp only [h1, if_false]; exact ring_trace styleS _ n (by omega) rfl rfl rfl d is hl
+  case erNormal1 | erPipe1 | erBypass1 =>
+    simp only [runCls, Cls.kind, Cls.style, Cls.cap] at *
+    exact (er1Sim _).run_eq is _ trivial hl
+  case vrNormal1 | vrPipe1 | vrBypass1 =>
+    simp only [runCls, Cls.kind, Cls.style, Cls.cap] at *
+    exact (v1Sim _).run_eq is _ trivial hl
+  case vrNormalN =>
+    simp only [runCls, Cls.kind, Cls.style, Cls.cap, Cls.capOK] at *
+    exact (vrSim n (by omega)).run_eq is _ (vring_init_inv n (by omega) d) hl
+  case clNormal | clPipe | clBypass =>
+    simp only [runCls, Cls.kind, Cls.style, Cls.cap, Cls.capOK] at *
+    exact (clSim _ n (by omega)).run_eq is _ (Nat.zero_le _) hl
+
+theorem cap_pos (c : Cls) (n : Nat) (hn : c.capOK n) : 0 < c.cap n := by
+  cases c <;> simp [Cls.cap, Cls.capOK] at * <;> omega
+
+theorem length_runCls {α} (c : Cls) (n : Nat) (d : α) (is : List (In α)) :
+    (runCls c n d is).length = is.length := by
+  cases c <;> simp only [runCls] <;> (try split) <;> exact length_run _ _ _
+
+/-- the output of the cycle that follows a history exists and extends the trace -/
+theorem runCls_append {α} (c : Cls) (n : Nat) (d : α) (pre : List (In α)) (i : In α) :
+    ∃ o, runCls c n d (pre ++ [i]) = runCls c n d pre ++ [o] := by
+  cases c <;> simp only [runCls] <;> (try split) <;> exact ⟨_, run_append _ _ _ _⟩
+
+/-- the outputs of the specification in the cycle after history `pre`, in terms of the ledger of `pre` -/
+theorem spec_next_out {α} (st : Style) (k : Kind) (n : Nat) (hn : 0 < n) (pre : List (In α)) (i : In α) :
+    let len := (ledger st pre (runSpec st k n pre)).acc.length - (ledger st pre (runSpec st k n pre)).del.length
+    let o := (specStep st k n (runState (specStep st k n) [] pre) i).2
+    let dr := !(st.gate && i.rst) && deqLaw k len i.enq
+    len ≤ n ∧
+    o.enqRdy = (!(st.gate && i.rst) && enqLaw k n len i.deq) ∧
+    o.deqRdy = (if st.push then i.deq && dr else dr) ∧
+    o.count = (if st.free then (if i.rst then n else n - len) else len) := by
+  have h := spec_len st k n hn pre
+  have h2 := (spec_ledger st k n hn pre).2
+  simp only [← h]
+  exact ⟨h2, rfl, rfl, rfl⟩
+
+/-- from "the class trace extends by `o`" to "`o` is the specification's output" -/
+theorem cls_next {α} (c : Cls) (hc : c ≠ .erBypass2) (n : Nat) (hn : c.capOK n) (d : α)
+    (pre : List (In α)) (i : In α) (o : Out α)
+    (hl : LegalTrace c.style (pre ++ [i]) (runCls c n d (pre ++ [i])))
+    (ho : runCls c n d (pre ++ [i]) = runCls c n d pre ++ [o]) :
+    runCls c n d pre = runSpec c.style c.kind (c.cap n) pre ∧
+    o = (specStep c.style c.kind (c.cap n) (runState (specStep c.style c.kind (c.cap n)) [] pre) i).2 := by
+  have h1 := cls_trace c hc n hn d (pre ++ [i]) hl
+  rw [ho] at h1
+  unfold runSpec at h1
+  rw [run_append] at h1
+  have hlen : (runCls c n d pre).length = (run (specStep c.style c.kind (c.cap n)) [] pre).length := by
+    rw [length_runCls, length_run]
+  obtain ⟨ha, hb⟩ := List.append_inj h1 hlen
+  exact ⟨ha, by simpa using hb⟩
+
+/-! ## `enrdy_queues.BypassQueue2RTL`: FIFO order, count and the dequeue law (its enqueue-ready law does not hold) -/
+
+def abs2 {α} (s : One α × One α) : List α := abs1 s.2 ++ abs1 s.1
+
+theorem er2_step {α} (s : One α × One α) (i : In α) (L : Ledger α) (h : L.acc = L.del ++ abs2 s)
+    (hl : Legal styleEB (er2Step s i).2 i) :
+    (L.step styleEB i (er2Step s i).2).acc = (L.step styleEB i (er2Step s i).2).del ++ abs2 (er2Step s i).1 ∧
+    (er2Step s i).2.count = (abs2 s).length ∧ (abs2 s).length ≤ 2 ∧
+    (er2Step s i).2.deqRdy = (i.deq && deqLaw .bypass (abs2 s).length i.enq) := by
+  obtain ⟨⟨f1, e1⟩, ⟨f2, e2⟩⟩ := s
+  obtain ⟨r, en, m, d⟩ := i
+  obtain ⟨A, D⟩ := L
+  simp only [abs2, abs1] at h
+  cases f1 <;> cases f2 <;> cases r <;> cases en <;> cases d <;>
+    simp_all [er2Step, er1Raw, Ledger.step, accepted, delivered, styleEB, abs2, abs1, Legal, b2n, deqLaw]
+
+theorem er2_run {α} (is : List (In α)) (s : One α × One α) (L : Ledger α) (h : L.acc = L.del ++ abs2 s)
+    (hl : LegalTrace styleEB is (run er2Step s is)) :
+    (ledgerFrom styleEB L is (run er2Step s is)).acc =
+      (ledgerFrom styleEB L is (run er2Step s is)).del ++ abs2 (runState er2Step s is) := by
+  induction is generalizing s L with
+  | nil => exact h
+  | cons i is ih =>
+    simp only [run, LegalTrace] at hl
+    simp only [run, runState, ledgerFrom]
+    exact ih _ _ (er2_step s i L h hl.1).1 hl.2
+
 end PV.Queue
